@@ -47,6 +47,7 @@ func (f *g2lFn) params() []nameType {
 
 func (f *g2lFn) compileBody(monad string) (lines []string) {
 	f.tmp, f.nloop, f.loops = 0, 0, nil
+	f.labelFrames, f.inlineRanges, f.aliases, f.nilAlias, f.loopLabels, f.pendingLabel = nil, nil, nil, nil, nil, ""
 	f.objNames, f.usedName = map[types.Object]string{}, map[string]bool{}
 	f.deferBody, f.inDefer = nil, false
 	f.monad = monad
